@@ -535,8 +535,41 @@ func RunEmb$N() string {
 	}
 	return out + " no Who"
 }`, `RunEmb$N() + cfg$Nq{}.Who()`},
+	{"go-embed-directive-attached", `//go:embed embed_data.txt
+var embedded$N string
+
+// embeddedGroup$N holds a second copy.
+var (
+	//go:embed embed_data.txt
+	embeddedBytes$N []byte
+)`, `embedded$N + string(embeddedBytes$N)`},
+	{"go-embed-directive-detached-by-a-blank-line", `//go:embed embed_data.txt
+
+var detached$N string`, `detached$N`},
+	{"local-generic-type-named-like-import-embedded-and-selected", `func GenEmb$N(s string) string {
+	type strings[T any] struct{ v T }
+	type W[T any] struct {
+		strings[T]
+		o T
+	}
+	w := W[int]{strings: strings[int]{v: 1}, o: 2}
+	p := &W[string]{strings[string]{v: s}, s}
+	return {STR}ToUpper(s) + {STR}Repeat("x", w.strings.v+w.v+w.o) + p.strings.v + p.v + p.o
+}`, `GenEmb$N("ge")`},
+	{"local-generic-type-with-method-like-fields-used-through-instances", `type box$N[T any] struct {
+	strings T
+	sort   []T
+}
+
+func (b box$N[T]) first() T { return b.sort[0] }
+
+func UseBox$N() string {
+	b := box$N[string]{strings: "s", sort: []string{"z", "a"}}
+	c := box$N[int]{sort: []int{3}}
+	return {STR}ToUpper(b.strings+b.first()) + {FMT}Sprint(c.first(), len(c.sort))
+}`, `UseBox$N()`},
 }
 
 // c15NeedsStrAlias: snippets that declare a local named "strings" and use package strings inside
 // its scope — legal only where the user's own name for that package is something else.
-var c15NeedsStrAlias = map[string]bool{"locals-consts-types-typeparams-named-like-generated-imports": true}
+var c15NeedsStrAlias = map[string]bool{"locals-consts-types-typeparams-named-like-generated-imports": true, "local-generic-type-named-like-import-embedded-and-selected": true}
